@@ -95,8 +95,8 @@ class MDOAdditiveChain(MDOParallelChain):
                 disciplinary_jacobians = [
                     discipline.jac[output_name][input_name]
                     for discipline in self.disciplines
-                    if input_name in discipline.jac[output_name]
+                    if input_name in discipline.jac.get(output_name, ())
                 ]
 
-                assert disciplinary_jacobians
-                self.jac[output_name][input_name] = sum(disciplinary_jacobians)
+                if disciplinary_jacobians:
+                    self.jac[output_name][input_name] = sum(disciplinary_jacobians)
